@@ -4,16 +4,21 @@ From Coq Require Import Permutation.
 
 Section Explode.
   Variable plan : op -> nat -> bool.
-  Variable shuf_rename shuf_cleanup : shuffle.
+  Variable shuf_rename shuf_cleanup shuf_stale : shuffle.
   (** Go's map iteration visits every key exactly once, in any order *)
   Hypothesis Hperm : forall l, Permutation (shuf_rename l) l.
+  Hypothesis Hperm_st : forall l, Permutation (shuf_stale l) l.
   Variable s0 : fs.
   Hypothesis Hnd : no_dup s0.
   Variable c : zname.
   Variable rs : list rmeta.
   Hypothesis Heff : eff s0 c = Some rs.
-  (** no stale sidecar waits at the simple-shard names *)
-  Hypothesis Hmeta : forall r, In r (alive rs) -> s0 (PMeta (ZSimple (rm_id r))) = None \/ ZSimple (rm_id r) = c.
+  (** [fixed = false] (the code before the "stale .meta" repair): no stale sidecar waits at the simple-shard names.
+      [fixed = true]: a stale sidecar may wait there if it is an ORPHAN (no shard of that name beside it) *)
+  Variable fixed : bool.
+  Hypothesis Hmeta : forall r, In r (alive rs) ->
+    s0 (PMeta (ZSimple (rm_id r))) = None \/ ZSimple (rm_id r) = c \/
+    (fixed = true /\ s0 (PZ (ZSimple (rm_id r))) = None).
 
   Definition Pz (z : zname) (cnt : content) : Prop :=
     exists r, cnt = CShard [r] /\ z = ZSimple (rm_id r) /\ In r (alive rs).
@@ -26,7 +31,8 @@ Section Explode.
     hoare (BI s0 Pz acc []) (write_simple plan l acc)
           (fun p s => Shrunk s0 s /\
                       (fst p = true -> TmpsP Pz (snd p) s /\ incl acc (snd p) /\
-                                       forall r, In r l -> In (ZSimple (rm_id r)) (snd p))).
+                                       (forall r, In r l -> In (ZSimple (rm_id r)) (snd p)) /\
+                                       (forall z, In z (snd p) -> In z acc \/ exists r, In r l /\ z = ZSimple (rm_id r)))).
   Proof.
     induction l as [|r rest IH]; intros acc Hl; simpl.
     - apply hoare_ret. intros s [H1 [H2 _]]. split; auto. intros _. repeat split; auto using incl_refl. intros r [].
@@ -47,9 +53,14 @@ Section Explode.
         destruct (in_dec zname_eq_dec z acc); [right; auto|].
         apply in_app_or in Hz'. destruct Hz' as [Hz'|[<-|[]]]; [right|left]; auto.
       + intros [ok' tmps] s [H1 H2]. simpl in *. split; auto. intros Hok.
-        destruct (H2 Hok) as [H3 [H4 H5]]. split; [auto|split].
+        destruct (H2 Hok) as [H3 [H4 [H5 H6]]]. split; [auto|split; [|split]].
         * eapply incl_tran; eauto.
         * intros r' [<-|Hr']; auto.
+        * intros z' Hz'. destruct (H6 z' Hz') as [Ha|[r' [Hr1 Hr2]]].
+          -- unfold acc' in Ha. destruct (in_dec zname_eq_dec z acc); [left; exact Ha|].
+             apply in_app_or in Ha. destruct Ha as [Ha|[<-|[]]]; [left; exact Ha|].
+             right. exists r. split; [left; reflexivity|reflexivity].
+          -- right. exists r'. split; [right; exact Hr1|exact Hr2].
   Qed.
 
   (** ---- deferred cleanup: removing .tmp names never matters *)
@@ -72,8 +83,10 @@ Section Explode.
   Definition CGone (s : fs) : Prop := (forall r0, c <> ZSimple r0) -> s (PZ c) = None.
   Definition Published (z : zname) (s : fs) : Prop :=
     (exists r, In r (alive rs) /\ z = ZSimple (rm_id r) /\ vis s z = [rm_id r]) /\ s (PTmp z) = None.
+  Definition MetaGone (D : list zname) (s : fs) : Prop := forall z, In z D -> s (PMeta z) = None.
   Definition EI (tmps D : list zname) (s : fs) : Prop :=
-    Inv2 s /\ MetaI s /\ s (PMeta c) = None /\ CGone s /\ TmpsP Pz tmps s /\ forall z, In z D -> Published z s.
+    Inv2 s /\ MetaI s /\ s (PMeta c) = None /\ CGone s /\ TmpsP Pz tmps s /\ (forall z, In z D -> Published z s) /\
+    MetaGone tmps s.
 
   Lemma vis_c0 : vis s0 c = live rs.
   Proof. unfold vis. rewrite Heff. reflexivity. Qed.
@@ -97,9 +110,9 @@ Section Explode.
 
   Lemma EI_upd_tmp_none : forall tmps D s z, EI tmps D s -> EI tmps D (upd s (PTmp z) None).
   Proof.
-    intros tmps D s z [H1 [H2 [H3 [H4 [H5 H6]]]]]. unfold EI.
+    intros tmps D s z [H1 [H2 [H3 [H4 [H5 [H6 H7]]]]]]. unfold EI.
     assert (V : forall z', vis (upd s (PTmp z) None) z' = vis s z') by (intros; apply vis_upd_invisible; simpl; auto).
-    split; [|split; [|split; [|split; [|split]]]].
+    split; [|split; [|split; [|split; [|split; [|split]]]]].
     - intros z'. rewrite V. apply H1.
     - intros z'. rewrite upd_other by discriminate. apply H2.
     - rewrite upd_other by discriminate. auto.
@@ -108,6 +121,7 @@ Section Explode.
     - intros z' Hz'. destruct (H6 z' Hz') as [P1 P2]. split.
       + rewrite V. exact P1.
       + unfold upd. destruct (path_eq_dec (PTmp z') (PTmp z)); auto.
+    - intros z' Hz'. rewrite upd_other by discriminate. apply H7; auto.
   Qed.
 
   Lemma rename_one : forall tmps D z, In z tmps ->
@@ -116,14 +130,11 @@ Section Explode.
   Proof.
     intros tmps D z Hz. apply hoare_exec.
     2:{ intros s H. split; auto. intros; discriminate. }
-    intros s s' [H1 [H2 [H3 [H4 [H5 H6]]]]] E. apply step_rename in E. destruct E as [-> [c0 Hc0]].
+    intros s s' [H1 [H2 [H3 [H4 [H5 [H6 H7]]]]]] E. apply step_rename in E. destruct E as [-> [c0 Hc0]].
     destruct (H5 z Hz) as [Hn|[c1 [Hc1 [r [-> [Ez Hr]]]]]]; [congruence|].
     rewrite Hc0 in Hc1. inversion Hc1; subst c0. clear Hc1.
     set (s' := upd (upd s (PZ z) (s (PTmp z))) (PTmp z) None).
-    assert (Hmz : s (PMeta z) = None).
-    { destruct (Hmeta r Hr) as [Hm|Hm].
-      - destruct (H2 z) as [Hx|Hx]; subst z; congruence.
-      - subst z. rewrite Hm. exact H3. }
+    assert (Hmz : s (PMeta z) = None) by (apply H7; exact Hz).
     assert (Hvz : vis s' z = [rm_id r]).
     { unfold vis, eff, s'. rewrite upd_other by discriminate. rewrite upd_same, Hc0.
       rewrite !upd_other by discriminate. rewrite Hmz. unfold live, alive. simpl.
@@ -139,7 +150,7 @@ Section Explode.
     assert (HP : Published z s').
     { split; [exists r; auto|]. unfold s'. apply upd_same. }
     split; [|auto].
-    split; [exact HI|split; [|split; [|split; [|split]]]].
+    split; [exact HI|split; [|split; [|split; [|split; [|split]]]]].
     - intros z'. unfold s'. rewrite !upd_other by discriminate. apply H2.
     - unfold s'. rewrite !upd_other by discriminate. exact H3.
     - intros Hc. unfold s'. rewrite upd_other by discriminate.
@@ -151,10 +162,11 @@ Section Explode.
       destruct (H6 z' Hz') as [P1 P2]. split.
       + rewrite (Hvo z' Hne). exact P1.
       + unfold s'. rewrite upd_other by congruence. rewrite upd_other by discriminate. exact P2.
+    - intros z' Hz'. unfold s'. rewrite !upd_other by discriminate. apply H7; auto.
   Qed.
 
   Lemma EI_weaken_D : forall tmps D D' s, incl D' D -> EI tmps D s -> EI tmps D' s.
-  Proof. intros tmps D D' s Hi [H1 [H2 [H3 [H4 [H5 H6]]]]]. unfold EI. split; [exact H1|split; [exact H2|split; [exact H3|split; [exact H4|split; [exact H5|]]]]]. intros z Hz. apply H6, Hi, Hz. Qed.
+  Proof. intros tmps D D' s Hi [H1 [H2 [H3 [H4 [H5 [H6 H7]]]]]]. unfold EI. split; [exact H1|split; [exact H2|split; [exact H3|split; [exact H4|split; [exact H5|split; [|exact H7]]]]]]. intros z Hz. apply H6, Hi, Hz. Qed.
 
   Lemma rename_loop : forall tmps l D, incl l tmps ->
     hoare (EI tmps D) (rename_best_effort plan l)
@@ -168,19 +180,55 @@ Section Explode.
         eapply hoare_bind with (R := fun ok' s => EI tmps (z :: D) s /\ (ok' = true -> forall z', In z' rest -> Published z' s)).
         { eapply hoare_conseq; [apply (IH (z :: D))| |]; auto.
           - intros z' Hz'. apply Hl; right; auto.
-          - intros s [[H1 [H2 [H3 [H4 [H5 H6]]]]] H7]. unfold EI.
-            split; [exact H1|split; [exact H2|split; [exact H3|split; [exact H4|split; [exact H5|]]]]].
+          - intros s [[H1 [H2 [H3 [H4 [H5 [H6 H8]]]]]] H7]. unfold EI.
+            split; [exact H1|split; [exact H2|split; [exact H3|split; [exact H4|split; [exact H5|split; [|exact H8]]]]]].
             intros z' [<-|Hz']; auto. }
         intros ok'. apply hoare_ret. intros s [H1 H2]. split.
         * eapply EI_weaken_D; [|exact H1]. apply incl_tl, incl_refl.
         * simpl. intros -> z' [<-|Hz']; auto.
-          destruct H1 as [_ [_ [_ [_ [_ H6]]]]]. apply H6; left; auto.
+          destruct H1 as [_ [_ [_ [_ [_ [H6 _]]]]]]. apply H6; left; auto.
       + eapply hoare_bind with (R := fun _ s => EI tmps D s).
         { eapply hoare_conseq; [apply (IH D)| |]; auto.
           - intros z' Hz'. apply Hl; right; auto.
           - intros s [H _]; auto.
           - intros a s [H _]; auto. }
         intros ok'. apply hoare_ret. intros s H. split; auto. simpl. intros; discriminate.
+  Qed.
+
+  (** ---- the loop removing stale sidecars at the destination names (after the "stale .meta" repair) *)
+  Definition SI (tmps D : list zname) (s : fs) : Prop :=
+    BI s0 Pz tmps [] s /\ s (PZ c) = None /\ s (PMeta c) = None /\ MetaGone D s.
+
+  Lemma stale_loop : forall tmps l D,
+    (forall z, In z l -> exists r, In r (alive rs) /\ z = ZSimple (rm_id r)) ->
+    hoare (SI tmps D) (remove_stale_all plan l) (fun ok s => SI tmps D s /\ (ok = true -> MetaGone l s)).
+  Proof.
+    intros tmps l. induction l as [|z rest IH]; intros D Hl; simpl.
+    - apply hoare_ret. intros s H. split; auto. intros _ z [].
+    - destruct (Hl z (or_introl eq_refl)) as [r [Hr Ez]].
+      eapply hoare_bind with (R := fun ok s => SI tmps D s /\ (ok = true -> s (PMeta z) = None)).
+      { eapply hoare_conseq;
+          [apply (rm_stale_spec plan s0 Hnd Pz tmps [] z
+                    (fun s => s (PZ c) = None /\ s (PMeta c) = None /\ MetaGone D s))| |].
+        - intros s [F1 [F2 F3]]. split; [rewrite upd_other by discriminate; exact F1|split].
+          + unfold upd. destruct (path_eq_dec (PMeta c) (PMeta z)); auto.
+          + intros z' Hz'. unfold upd. destruct (path_eq_dec (PMeta z') (PMeta z)); auto.
+        - intros s [HB [F1 [F2 F3]]]. split; [exact HB|]. split; [auto|].
+          destruct (Hmeta r Hr) as [H|[H|[_ H]]].
+          + right. rewrite Ez. eapply shrunk_meta; eauto. apply HB.
+          + left. rewrite Ez, H. exact F1.
+          + left. rewrite Ez. destruct HB as [HS _]. destruct (HS (ZSimple (rm_id r))) as [[H1 _]|[H1 _]]; congruence.
+        - intros ok s [HB [[F1 [F2 F3]] Hok]]. split; [|exact Hok]. split; [exact HB|auto]. }
+      intros ok. apply hoare_if_negb; intros ->.
+      { apply hoare_ret. intros s [H _]. split; auto. discriminate. }
+      eapply hoare_conseq with (P' := SI tmps (z :: D))
+        (Q' := fun ok s => SI tmps (z :: D) s /\ (ok = true -> MetaGone rest s)).
+      + apply IH. intros z' Hz'. apply Hl; right; auto.
+      + intros s [[HB [F1 [F2 F3]]] Hz]. split; [exact HB|split; [exact F1|split; [exact F2|]]].
+        intros z' [<-|Hz']; [apply Hz; auto|apply F3; auto].
+      + intros ok s [[HB [F1 [F2 F3]]] Hrest]. split.
+        * split; [exact HB|split; [exact F1|split; [exact F2|]]]. intros z' Hz'. apply F3; right; auto.
+        * intros Hok z' [<-|Hz']; [apply F3; left; auto|apply Hrest; auto].
   Qed.
 
   (** ---- Explode *)
@@ -194,9 +242,9 @@ Section Explode.
   Lemma shrunk_upd_tmp_none : forall s z, Shrunk s0 s -> Shrunk s0 (upd s (PTmp z) None).
   Proof. intros. apply shrunk_upd_invisible; simpl; auto. Qed.
 
-  Lemma explode_spec : hoare (fun s => s = s0) (explode_prog plan shuf_rename shuf_cleanup c) ExplodeQ.
+  Lemma explode_spec : hoare (fun s => s = s0) (explode_prog_gen plan shuf_rename shuf_cleanup shuf_stale fixed c) ExplodeQ.
   Proof.
-    unfold explode_prog.
+    unfold explode_prog_gen.
     eapply hoare_bind with (R := fun _ s => s = s0).
     { apply hoare_exec; auto. intros s s' -> E. apply step_open in E. subst. auto. }
     intros ok. apply hoare_if_negb; intros ->; [apply hoare_ret; simpl; auto|].
@@ -205,12 +253,14 @@ Section Explode.
     assert (Ec : exists rs', s0 (PZ c) = Some (File (CShard rs'))).
     { unfold eff in Heff. destruct (s0 (PZ c)) as [[[]|]|]; try discriminate; eauto. }
     destruct Ec as [rs' Ec]. rewrite Ec, Heff.
-    set (Hall := fun tmps => forall r, In r (alive rs) -> In (ZSimple (rm_id r)) tmps).
+    set (Hall := fun tmps => (forall r, In r (alive rs) -> In (ZSimple (rm_id r)) tmps) /\
+                             (forall z, In z tmps -> exists r, In r (alive rs) /\ z = ZSimple (rm_id r))).
     (* the write loop *)
     eapply hoare_bind with (R := fun p s => Shrunk s0 s /\ (fst p = true -> TmpsP Pz (snd p) s /\ Hall (snd p))).
     { eapply hoare_conseq; [apply (write_simple_spec (alive rs) []); auto| |].
       - intros s [_ ->]. split; [apply shrunk_refl|split; intros z []].
-      - intros p s [H1 H2]. split; auto. intros Hok. destruct (H2 Hok) as [H3 [_ H4]]. auto. }
+      - intros p s [H1 H2]. split; auto. intros Hok. destruct (H2 Hok) as [H3 [_ [H4 H5]]]. split; [exact H3|].
+        split; [exact H4|]. intros z Hz. destruct (H5 z Hz) as [[]|Hx]. exact Hx. }
     intros [ok1 tmps]. simpl.
     assert (Hclean : forall (A : Type) (P : fs -> Prop), (forall s, P s -> Shrunk s0 s) ->
               hoare P (doM _ <- remove_best_effort plan (map PTmp (shuf_cleanup tmps)) ;; ret RErr) ExplodeQ).
@@ -228,12 +278,31 @@ Section Explode.
       split; auto. split; [exact HP1|split; [exact HT|intros z []]]. }
     intros ok2. apply hoare_if_negb; intros ->.
     { apply (Hclean unit). intros s [[H _] _]; exact H. }
+    (* the stale-sidecar loop *)
+    eapply hoare_bind with
+      (R := fun ok s => SI tmps [] s /\ Hall tmps /\ (ok = true -> MetaGone tmps s)).
+    { assert (Hcase : fixed = true \/ fixed = false) by (clear; destruct fixed; auto).
+      destruct Hcase as [Efx|Efx]; rewrite Efx.
+      - intros w [HB [HA Hg]] HS a w' E. destruct (Hg eq_refl) as [Hg1 Hg2].
+        assert (Hin : forall z, In z (shuf_stale tmps) -> exists r, In r (alive rs) /\ z = ZSimple (rm_id r)).
+        { intros z Hz. apply (proj2 HA). apply (Permutation_in z (Hperm_st tmps) Hz). }
+        assert (HSI : SI tmps [] (w_fs w)) by (split; [exact HB|split; [exact Hg1|split; [exact Hg2|intros z []]]]).
+        destruct (stale_loop tmps (shuf_stale tmps) [] Hin w HSI HS a w' E) as [[HQ1 HQ2] HS'].
+        split; [|exact HS']. split; [exact HQ1|split; [exact HA|]].
+        intros Hok z Hz. apply HQ2; auto. apply (Permutation_in z (Permutation_sym (Hperm_st tmps)) Hz).
+      - apply hoare_ret. intros s [HB [HA Hg]]. destruct (Hg eq_refl) as [Hg1 Hg2].
+        split; [split; [exact HB|split; [exact Hg1|split; [exact Hg2|intros z []]]]|]. split; [exact HA|].
+        intros _ z Hz. destruct (proj2 HA z Hz) as [r [Hr Ez]].
+        destruct (Hmeta r Hr) as [H|[H|[H _]]]; [|rewrite Ez, H; exact Hg2|congruence].
+        rewrite Ez. eapply shrunk_meta; eauto. apply HB. }
+    intros ok2'. apply hoare_if_negb; intros ->.
+    { apply (Hclean unit). intros s [[[H _] _] _]; exact H. }
     (* the rename loop *)
     eapply hoare_bind with
       (R := fun ok s => EI tmps [] s /\ Hall tmps /\ (ok = true -> forall z, In z tmps -> Published z s)).
-    { intros w [[HS1 [HT _]] [HA Hg]] HS a w' E. destruct (Hg eq_refl) as [Hg1 Hg2].
+    { intros w [[[HS1 [HT _]] [Hg1 [Hg2 _]]] [HA Hmg]] HS a w' E. specialize (Hmg eq_refl).
       assert (HEI : EI tmps [] (w_fs w)).
-      { split; [|split; [|split; [exact Hg2|split; [intros _; exact Hg1|split; [exact HT|intros z []]]]]].
+      { split; [|split; [|split; [exact Hg2|split; [intros _; exact Hg1|split; [exact HT|split; [intros z []|exact Hmg]]]]]].
         - intros z. destruct (zname_eq_dec z c) as [->|Hne].
           + right; left. apply vis_nil_of_shard_none. exact Hg1.
           + left. split; auto. apply (shrunk_sub _ _ HS1).
@@ -256,16 +325,16 @@ Section Explode.
     intros r0 Hr0. rewrite vis_c0 in Hr0. apply in_live in Hr0.
     destruct Hr0 as [m [Hm1 [Hm2 Hm3]]].
     assert (Ha : In m (alive rs)) by (unfold alive; apply filter_In; rewrite Hm2; auto).
-    destruct (H3 eq_refl _ (HA m Ha)) as [[r' [_ [Ez Hv]]] _].
+    destruct (H3 eq_refl _ (proj1 HA m Ha)) as [[r' [_ [Ez Hv]]] _].
     inversion Ez as [Eid]. rewrite Hm3 in Eid. rewrite Hm3 in Hv. rewrite Hv. congruence.
   Qed.
 End Explode.
 
 (** Explode on an input that does not load: only the Open happened. *)
-Lemma explode_spec_none : forall plan sr sc s0 c, no_dup s0 -> eff s0 c = None ->
-  hoare (fun s => s = s0) (explode_prog plan sr sc c) (fun r _ => r = RErr).
+Lemma explode_spec_none : forall plan sr sc st fixed s0 c, no_dup s0 -> eff s0 c = None ->
+  hoare (fun s => s = s0) (explode_prog_gen plan sr sc st fixed c) (fun r _ => r = RErr).
 Proof.
-  intros plan sr sc s0 c Hnd He. unfold explode_prog.
+  intros plan sr sc st fixed s0 c Hnd He. unfold explode_prog_gen.
   eapply hoare_bind with (R := fun _ s => s = s0).
   { apply hoare_exec; auto. intros s s' -> E. apply step_open in E. subst. auto. }
   intros ok. apply hoare_if_negb; intros ->; [apply hoare_ret; auto|].
